@@ -1,6 +1,6 @@
 (** C14 — sort() is a pure reordering into the canonical order. *)
 From Coq Require Import String List ZArith Sorting.Sorted Permutation.
-From A2L Require Import Base.Res Base.StableSort Lib.Sort Proofs.SortProofs.
+From A2L Require Import Base.Res Base.StableSort Lib.Sort Proofs.SortProofs Proofs.SortModuleProofs.
 Import ListNotations.
 Local Open Scope Z_scope.
 
@@ -33,6 +33,28 @@ Print Assumptions C14_writer_order_sorted.
 Theorem C14_writer_order_permutation : forall m, Permutation (writer_order m) (tgroup m).
 Proof. intros m. unfold writer_order. apply ssort_perm. Qed.
 Print Assumptions C14_writer_order_permutation.
+
+(* the whole MODULE: after sort() the writer prints A2ML, MOD_COMMON, MOD_PAR, the IF_DATA blocks, then the twenty
+   named kinds in the canonical kind order each sorted by name, then USER_RIGHTS by name, then VARIANT_CODING - every
+   element with untouched content - and the uids it orders by are strictly increasing (so no tie is left to the
+   line number or the tag) *)
+Theorem C14_module_written_in_canonical_order : forall m, length (m_lists m) = 20%nat ->
+  StronglySorted uid_lt (writer_order (sort_module canonical_order m)) /\
+  map content (writer_order (sort_module canonical_order m)) = map content (canonical_listing canonical_order m).
+Proof. exact sort_module_writer_order. Qed.
+Print Assumptions C14_module_written_in_canonical_order.
+
+(* every one of the twenty lists keeps exactly its elements *)
+Theorem C14_module_lists_keep_their_elements : forall m k, length (m_lists m) = 20%nat ->
+  Permutation (map content (nth k (m_lists (sort_module canonical_order m)) [])) (map content (nth k (m_lists m) [])).
+Proof. exact sort_module_lists_keep. Qed.
+Print Assumptions C14_module_lists_keep_their_elements.
+
+(* sorting the whole MODULE a second time changes nothing *)
+Theorem C14_module_sort_idempotent : forall m, length (m_lists m) = 20%nat ->
+  sort_module canonical_order (sort_module canonical_order m) = sort_module canonical_order m.
+Proof. exact sort_module_idempotent. Qed.
+Print Assumptions C14_module_sort_idempotent.
 
 (* closed check of the whole-module statement on a concrete module that populates several kinds:
    after sort_module the writer lists the elements exactly in canonical kind order, alphabetically,
